@@ -29,6 +29,13 @@ func (c *fctx) callStmt(o *out, ind int, call *ast.CallExpr, lhs []ast.Expr, isD
 		}
 	}
 	if id, ok := call.Fun.(*ast.Ident); ok && lhs == nil {
+		if _, isB := c.info.Uses[id].(*types.Builtin); isB && id.Name == "delete" && c.x.kindOf(c.typeOf(call.Args[0])) == kMap {
+			lv := c.lvalue(call.Args[0])
+			o.emit(ind, "%s", lv.set(fmt.Sprintf("(Go.mapDel %s %s)", lv.get, c.expr(call.Args[1]))))
+			return
+		}
+	}
+	if id, ok := call.Fun.(*ast.Ident); ok && lhs == nil {
 		if _, isB := c.info.Uses[id].(*types.Builtin); isB && id.Name == "panic" {
 			o.emit(ind, "throw (Err.panic %s)", c.site(call.Pos()))
 			return
@@ -87,18 +94,31 @@ func (c *fctx) callStmt(o *out, ind int, call *ast.CallExpr, lhs []ast.Expr, isD
 	}
 	args := c.userArgs(ci, call)
 	type wb struct {
-		lv lval
-		lo string
+		lv    lval
+		lo    string
+		whole bool
 	}
 	var wbs []wb
 	for _, mi := range ci.mutParams {
 		ai := mi - off
+		var ae ast.Expr
+		if ai < 0 {
+			ae = call.Fun.(*ast.SelectorExpr).X
+		} else {
+			ae = call.Args[ai]
+		}
+		if c.x.kindOf(c.typeOf(ae)) == kPtrStruct || c.x.kindOf(c.typeOf(ae)) == kStruct { // the callee returns the updated struct
+			lv := c.lvalue(ae)
+			args[mi] = lv.get
+			wbs = append(wbs, wb{lv: lv, whole: true})
+			continue
+		}
 		if ai < 0 {
 			bad("receiver written through at %s", c.site(call.Pos()))
 		}
-		lv, lo, hi := c.target(call.Args[ai])
+		lv, lo, hi := c.target(ae)
 		args[mi] = fmt.Sprintf("(← Go.slice %s %s %s %s)", lv.get, lo, hi, c.site(call.Pos()))
-		wbs = append(wbs, wb{lv, lo})
+		wbs = append(wbs, wb{lv: lv, lo: lo})
 	}
 	nres := ci.results.Len()
 	total := nres + len(wbs)
@@ -106,6 +126,9 @@ func (c *fctx) callStmt(o *out, ind int, call *ast.CallExpr, lhs []ast.Expr, isD
 	if ci.effectful {
 		s = "Gen." + ci.lean + " E " + strings.Join(args, " ")
 		c.fi.effectful = true
+	}
+	if ci.heapful {
+		c.useHeap()
 	}
 	for _, or := range ci.oracles {
 		s += " " + c.oracle(or.typ)
@@ -123,7 +146,16 @@ func (c *fctx) callStmt(o *out, ind int, call *ast.CallExpr, lhs []ast.Expr, isD
 		o.emit(ind, "let %s := %s", tmp, s)
 	}
 	for i, w := range wbs {
+		if w.whole {
+			o.emit(ind, "%s", w.lv.set(proj(tmp, nres+i, total)))
+			continue
+		}
 		o.emit(ind, "%s", w.lv.set(fmt.Sprintf("(Go.writeBack %s %s %s)", w.lv.get, w.lo, proj(tmp, nres+i, total))))
+	}
+	if lhs == nil {
+		for i := 0; i < nres; i++ {
+			c.lastCallRes = append(c.lastCallRes, proj(tmp, i, total))
+		}
 	}
 	if lhs != nil {
 		if len(lhs) != nres {
@@ -286,8 +318,8 @@ func (c *fctx) forStmt(o *out, ind int, t *ast.ForStmt) {
 	b := &out{}
 	prev := c.loop
 	c.loop = lc
-	wasEff := c.fi.effectful
-	c.fi.effectful = false
+	wasEff, wasHeap := c.fi.effectful, c.fi.heapful
+	c.fi.effectful, c.fi.heapful = false, false
 	for _, n := range snames {
 		b.emit(2, "let mut %s := %s", n, n)
 	}
@@ -298,11 +330,13 @@ func (c *fctx) forStmt(o *out, ind int, t *ast.ForStmt) {
 	c.block(b, 2, t.Body.List)
 	lc.next(b, 2)
 	c.loop = prev
-	bodyEff := c.fi.effectful
-	c.fi.effectful = wasEff || bodyEff
+	bodyEff, bodyHeap := c.fi.effectful, c.fi.heapful
+	c.fi.effectful, c.fi.heapful = wasEff || bodyEff, wasHeap || bodyHeap
 	envPar, monad := "", "R"
 	if bodyEff {
 		envPar, monad = fmt.Sprintf(" {σ : Type} (E : %s σ)", c.envName()), "StateT σ R"
+	} else if bodyHeap {
+		monad = "StateT Heap R"
 	}
 	rec = fillHole(rec, bodyEff)
 	fillEnv(b, bodyEff)
@@ -401,8 +435,8 @@ func (c *fctx) rangeStmt(o *out, ind int, t *ast.RangeStmt) {
 	b := &out{}
 	prev := c.loop
 	c.loop = lc
-	wasEff := c.fi.effectful
-	c.fi.effectful = false
+	wasEff, wasHeap := c.fi.effectful, c.fi.heapful
+	c.fi.effectful, c.fi.heapful = false, false
 	for _, n := range snames {
 		b.emit(2, "let mut %s := %s", n, n)
 	}
@@ -412,11 +446,13 @@ func (c *fctx) rangeStmt(o *out, ind int, t *ast.RangeStmt) {
 	c.block(b, 2, t.Body.List)
 	lc.next(b, 2)
 	c.loop = prev
-	bodyEff := c.fi.effectful
-	c.fi.effectful = wasEff || bodyEff
+	bodyEff, bodyHeap := c.fi.effectful, c.fi.heapful
+	c.fi.effectful, c.fi.heapful = wasEff || bodyEff, wasHeap || bodyHeap
 	envPar, monad := "", "R"
 	if bodyEff {
 		envPar, monad = fmt.Sprintf(" {σ : Type} (E : %s σ)", c.envName()), "StateT σ R"
+	} else if bodyHeap {
+		monad = "StateT Heap R"
 	}
 	rec = fillHole(rec, bodyEff)
 	fillEnv(b, bodyEff)
